@@ -328,6 +328,7 @@ SPHINX_CASES = [
     ("deprecated", "myst_enable_extensions = ['attrs_image']", "# T\n\ntext\n"),
     ("header", "", "# T\n\n### skipped\n\ntext\n"),
     ("xref_missing", "", "# T\n\n[](nosuch.md) and [t](#nosuchid)\n"),
+    ("xref_missing", "", "# T\n\n[x](#) empty fragment\n"),
     ("topmatter", "", "---\nmyst:\n  nosuchfield: 1\n---\n\n# T\n"),
     ("directive_unknown", "", "# T\n\n```{nosuchdirective}\nx\n```\n"),
     ("role_unknown", "", "# T\n\na {nosuchrole}`x` b\n"),
